@@ -179,7 +179,8 @@ def run_jobs(jobs, budget=None, procs=None, use_cache=True, th=None):
             outs = [run_job(a) for a in args]
         for i, o in zip(todo, outs):
             results[i] = o
-            if o.get("ok") and not o.get("budget"):
+            if True:
+                # results (including failures) are deterministic for a given tree and engine
                 p = os.path.join(cdir, "job-%s.json" % job_key(jobs[i]))
                 tmp = p + ".tmp%d" % os.getpid()
                 with open(tmp, "w") as fh:
